@@ -78,6 +78,19 @@ impl Prop for HalfToneShift {
         let t0 = gen(&engine)?;
         let mut shifted = engine.clone();
         shifted.condition.set_additional_half_tone(c.half_tone);
+        // the half tone is the caller's setting, not the voice's: re-reading the voice defaults
+        // (every fifth case, chosen by the number of labels) must keep it
+        let before_reload = c.base.labels.len() % 5 == 2;
+        if before_reload {
+            let vs = shifted.voices.clone();
+            if let Err(e) = shifted.condition.load_model(&vs) {
+                fail!("load-model", "Condition::load_model failed on the engine's own voices: {}", e);
+            }
+            let ht = shifted.condition.get_additional_half_tone();
+            c.base.cond.apply(&mut shifted);
+            shifted.condition.set_additional_half_tone(ht);
+            *shifted.condition.get_interporation_weight_mut() = engine.condition.get_interporation_weight().clone();
+        }
         ensure!(shifted.condition.get_additional_half_tone() == c.half_tone, "half-tone-roundtrip", "getter returns {} after set {}", shifted.condition.get_additional_half_tone(), c.half_tone);
         let t1 = gen(&shifted)?;
         ensure!(t0.lf0.len() == t1.lf0.len(), "half-tone-durations", "frame count changes from {} to {} with h = {}", t0.lf0.len(), t1.lf0.len(), c.half_tone);
